@@ -74,6 +74,9 @@ def shards(tier, seed):
             for dtype in ("int8", "uint8", "int16", "int64"):
                 for chunked in (False, True):
                     out.append(dict(leg="intvar", engine=engine, func=func, dtype=dtype, n=b["var_n"], chunked=chunked))
+                    if dtype != "int64":
+                        # members spread over the whole dtype: the *difference* of two members exceeds the input width
+                        out.append(dict(leg="intvar", engine=engine, func=func, dtype=dtype, n=b["var_n"], chunked=chunked, alpha="spread"))
     out.sort(key=lambda s: (0 if s.get("engine") in ("numba", "numbagg") else 1, 0 if s.get("chunked") else 1))
     return out
 
@@ -83,8 +86,12 @@ def int_alphabet(dtype):
     return (ii.max, ii.max - 1, ii.min, 1)
 
 
-def intvar_alphabet(dtype):
-    """Values whose squares exceed the width of the dtype (for int64: beyond 2**63, yet well-conditioned: spread ~3% of the mean)."""
+def intvar_alphabet(dtype, alpha=None):
+    """Values whose squares exceed the width of the dtype (for int64: beyond 2**63, yet well-conditioned: spread ~3% of the mean).
+    alpha='spread': members at both ends of the dtype, so that member - member does not fit the input width either."""
+    if alpha == "spread":
+        ii = np.iinfo(dtype)
+        return (ii.max, ii.min, ii.min + 1, ii.max // 2)
     if dtype == "int64":
         return (3_000_000_000, 3_100_000_000, 2_900_000_000, 3_050_000_000)
     ii = np.iinfo(dtype)
@@ -132,6 +139,8 @@ def run_point(res, shard, lab_tuple, V, chunks=None, method=None, kwextra=None, 
     n = len(lab_tuple)
     case = dict(leg=shard["leg"], func=func, engine=engine, dtype=str(V.dtype), labels=list(lab_tuple), chunks=list(chunks) if chunks else None,
                 method=method, kw=kwextra)
+    if shard.get("alpha"):
+        case["alpha"] = shard["alpha"]
     tags = dict(leg2=shard["leg"], func=func, engine=str(engine), dtype=str(V.dtype), chunked=chunks is not None, method=str(method))
     size = n * 10 + (len(chunks) if chunks else 0)
     if out.kind == "refused":
@@ -209,7 +218,7 @@ def run_shard(shard):
             V = space.value_matrix(int_alphabet(shard["dtype"]), m, shard["dtype"])
             variants = [None]
         elif leg == "intvar":
-            V = space.value_matrix(intvar_alphabet(shard["dtype"]), m, shard["dtype"])
+            V = space.value_matrix(intvar_alphabet(shard["dtype"], shard.get("alpha")), m, shard["dtype"])
             variants = [None]
         else:
             base = space.value_matrix((0.0, 1.0, 2.0, 3.0), m, "float64")
@@ -298,13 +307,13 @@ def replay(payload):
     if c["leg"] == "cumsum":
         run_cumsum(res, dict(dtype=c["dtype"], n=m))
         return res
-    shard = dict(leg=c["leg"], func=c["func"], engine=c["engine"], dtype=c["dtype"])
+    shard = dict(leg=c["leg"], func=c["func"], engine=c["engine"], dtype=c["dtype"], alpha=c.get("alpha"))
     if c["leg"] == "inf":
         V = space.value_matrix(A_INF, m, "float64")
     elif c["leg"] == "int":
         V = space.value_matrix(int_alphabet(c["dtype"]), m, c["dtype"])
     elif c["leg"] == "intvar":
-        V = space.value_matrix(intvar_alphabet(c["dtype"]), m, c["dtype"])
+        V = space.value_matrix(intvar_alphabet(c["dtype"], c.get("alpha")), m, c["dtype"])
     else:
         V = np.array([unjson_float(c["values"])], dtype="float64") if "values" in c else space.value_matrix((0.0, 1.0, 2.0, 3.0), m, "float64")
     run_point(res, shard, lt, V, chunks=tuple(c["chunks"]) if c.get("chunks") else None, method=c.get("method"), kwextra=c.get("kw"))
